@@ -31,6 +31,21 @@ class _ModelEnum(str, enum.Enum):
     ENUM = 'ENUM'
 
 
+class _Abort(BaseException):
+    """an interruption that is not an `Exception` (like KeyboardInterrupt / CancelledError) arriving while an artifact is
+    being written"""
+
+
+class _Bomb(dict):
+    """a value whose serialisation is interrupted by a BaseException, in either format, after the file has been opened"""
+
+    def items(self):
+        raise _Abort('interrupted while dumping (json)')
+
+    def __reduce_ex__(self, protocol):
+        raise _Abort('interrupted while dumping (pickle)')
+
+
 def value_pool():
     """(token, python value, pickle_ok, json_ok).  JSON-representable = round-trips through json."""
     return [
@@ -46,6 +61,7 @@ def value_pool():
         ('bytes', b'\x00\x01', True, False),
         ('lambda', (lambda: 1), False, False),           # neither
         ('cplx', {'a': complex(1, 2)}, True, False),
+        ('bomb', _Bomb(a=1), False, False),              # the dump is interrupted by a BaseException outside Exception
     ]
 
 
@@ -119,7 +135,7 @@ def run_impl(ops):
                 r = 'already-exists'
             except ArtifactDoesNotExist:
                 r = 'does-not-exist'
-            except Exception as e:  # noqa
+            except (Exception, _Abort) as e:  # noqa
                 r = 'dump-failed' if o['op'] == 'save' else f'load-raised {type(e).__name__}'
             listing = sorted(str(p.relative_to(root)) for p in root.rglob('*') if p.is_file())
             out.append((r, '|'.join(listing)))
